@@ -65,6 +65,7 @@ import math
 
 import numpy as np
 
+from vmc import bfs
 from vmc import families
 from vmc.numerics import EPS
 from vmc.parallel import run_shards, shard
@@ -668,7 +669,7 @@ def run_history(chk, cls, init, seq, chans, case):
             mcs[name] = make_ext_channel(current(name), Kc, n, r, cnoise)
         return obj.block_diagonalize_no_waterfilling(mcs[name])
 
-    prev = (bfs.digest(vars(obj)), 0, 0)
+    prev = (bfs.digest(bfs.state_of(obj)), 0, 0)
     chk.outcome("history_states", (cls,) + prev)
     for ev in tuple(init) + tuple(seq):
         if ev[0] == "metric":
@@ -695,7 +696,7 @@ def run_history(chk, cls, init, seq, chans, case):
             last = (ev, tuple(sorted(changed)))
             changed = set()
         chk.count("eval_history_events")
-        cur = (bfs.digest(vars(obj)), member["A"], member["B"])
+        cur = (bfs.digest(bfs.state_of(obj)), member["A"], member["B"])
         chk.outcome("history_states", (cls,) + cur)
         chk.outcome("history_transitions", (cls,) + prev + (repr(ev),))
         prev = cur
@@ -986,7 +987,7 @@ def run_error_case(chk, cls, ci, k, chans, case):
     l_configure(cls, obj, cfg)
     calls = bad_calls(cls)
     chk.count("eval_invalid_calls")
-    d0 = bfs.digest(vars(obj))
+    d0 = bfs.digest(bfs.state_of(obj))
     if k < len(calls):
         label, fn = calls[k]
         what = ("set_metric_unknown_name" if label == "set_metric_unknown_name" else
@@ -1003,7 +1004,7 @@ def run_error_case(chk, cls, ci, k, chans, case):
     except Exception as e:  # noqa
         raised = e
     chk.outcome("invalid_call", (cls, label, "accepted" if raised is None else "raised:" + type(raised).__name__,
-                                 "object_changed" if bfs.digest(vars(obj)) != d0 else "object_unchanged"))
+                                 "object_changed" if bfs.digest(bfs.state_of(obj)) != d0 else "object_unchanged"))
     case = dict(case, label=label)
     rep, usable, why = reported_config(cls, obj, cfg)
     sig = (cls, "after_invalid_call", what)
